@@ -313,6 +313,14 @@ impl TilesetsById<RawPixels> {
                 .unwrap()
                 .validate(palette.clone(), pixel_format, false)?;
 
+            // A tile has at least 1x1 pixels (tilemap sizes divide by it).
+            if tileset.tile_size.width == 0 || tileset.tile_size.height == 0 {
+                return Err(AsepriteParseError::InvalidInput(format!(
+                    "Tileset {} has an empty tile size {}x{}",
+                    tileset.id, tileset.tile_size.width, tileset.tile_size.height
+                )));
+            }
+
             // The decoded pixel data must cover all declared tiles.
             let expected_pixel_count =
                 tileset.tile_count as usize * tileset.tile_size.pixels_per_tile() as usize;
